@@ -133,9 +133,10 @@ theorem dedent_text_line (d l : Line) (a b : Nat) :
   obtain ⟨r, h1, h2, h3⟩ := dedentLine_drop d l
   exact ⟨r, h1, h3, h2, fun h => by rw [h2]; exact slice_drop l r a b h⟩
 
-/-- **dedent_pos_nonneg**: a column at or after the removed indentation stays non-negative. (The hypothesis is what
-fails for the `_match_cases` / `_ExceptHandlers` container of finding C07-F2: its column lies *inside* the removed
-indentation of a leading comment line.) -/
+/-- **dedent_pos_nonneg**: a column at or after the removed indentation stays non-negative. (The hypothesis fails for
+the `_match_cases` / `_ExceptHandlers` container when the copied span starts with a leading comment line: its column
+lies *inside* the removed indentation. That was finding C07-F2; the repaired `get_slice_stmtlike` therefore re-seats the
+container over the whole new source after `_make_fst_and_dedent` instead of relying on the dedent.) -/
 theorem dedent_pos_nonneg (d l : Line) (c : Int) (h : -(dedentLine d l).2 ≤ c) : 0 ≤ c + (dedentLine d l).2 := by
   omega
 
